@@ -19,7 +19,7 @@ CLAUSES = rc.C01_CLAUSES
 def trap_schedules(out):
     """Counterexamples TLC finds for the pinned model variants become schedules for the real code."""
     traps = []
-    for cfg, what in (("RaceDriver.live.pinned.cfg", "NoHang"), ("RaceDriver.pinned.cfg", "NoStall")):
+    for cfg, what in (("RaceDriver.live.pinned.cfg", "NoHang"), ("RaceDriver.pinned.cfg", "NoStall"), ("RaceDriver.stale.pinned.cfg", "NoSpuriousFailure")):
         wd = tlc.prepare_workdir("RaceDriver", "racetrap")
         res = tlc.run_tlc(wd, "MC_RaceDriver", cfg, timeout=900, allow_violation=True, workers=8)
         if res.ok:
@@ -38,7 +38,7 @@ def trap_schedules(out):
         if scn is None or not script:
             raise tlc.MachineryError("could not extract a counterexample from %s" % cfg)
         traps.append((scn, script, cfg))
-    out.extra["model_selftest"] = "pinned variants violate NoHang (CctFix=FALSE) and NoStall (SkipFix=FALSE) in the model, as expected"
+    out.extra["model_selftest"] = "pinned variants violate NoHang (CctFix=FALSE), NoStall (SkipFix=FALSE) and NoSpuriousFailure (StaleResetFix=FALSE, non-test mode) in the model, as expected"
     return traps
 
 
@@ -51,18 +51,23 @@ def run(ctx, out):
     out.assumptions = [
         "Thespian semantics as reproduced by harness/simactor.py: FIFO per (sender, receiver) pair, handlers run to completion, wake-ups never early",
         "executor thread interleaves with the actor thread only at request boundaries (it reads `complete`/`cancel` once per request); the harness runs it on a virtual-time asyncio loop",
-        "scenarios: <= 3 workers, <= 3 clients, <= 2 schedule elements, iteration-based and eternal tasks, unthrottled",
+        "scenarios: <= 3 workers, <= 3 clients, <= 2 schedule elements, iteration-based, time-period based and eternal tasks, unthrottled; hand-written families (exhaustive in TLC) plus a seeded GENERATED family (1-3 tasks per parallel, 1-2 clients per task, optional clients cap, completed-by task/any; simulation + conformance only)",
         "liveness is checked on the model under weak fairness; on the real code a hang is diagnosed when full round-robin sweeps of all enabled decisions no longer change the control state",
     ]
     # ---- Leg M
-    rc.model_check(out, ["RaceDriver.c01.quick.cfg", "RaceDriver.live.cfg"] if ctx.quick else ["RaceDriver.c01.thorough.cfg", "RaceDriver.live.thorough.cfg"], timeout=3000)
+    rc.model_check(out, ["RaceDriver.c01.quick.cfg", "RaceDriver.live.cfg", "RaceDriver.stale.cfg"] if ctx.quick else ["RaceDriver.c01.thorough.cfg", "RaceDriver.live.thorough.cfg", "RaceDriver.stale.cfg"], timeout=3000)
     traps = trap_schedules(out)
     # ---- Leg S2C
     jobs = []
     for scn, script, cfg in traps:
         for k in range(2):
-            jobs.append({"scn": scn, "script": script, "seed": ctx.seed + k, "test_mode": True, "qmax": 100})
+            jobs.append({"scn": scn, "script": script, "seed": ctx.seed + k, "test_mode": "stale" not in cfg, "qmax": 100})
     beh = rc.behaviours(ctx, out, 120 if ctx.quick else 1200, 100)
+    # generated scenario family (schedules drawn by the harness, see racecommon.gen_scenarios)
+    gbeh, ngen = rc.behaviours_gen(ctx, out, 40 if ctx.quick else 500, 40 if ctx.quick else 500, 100)
+    for i, (scn, script) in enumerate(gbeh):
+        jobs.append({"scn": scn, "script": script, "seed": ctx.seed + 5000 + i, "test_mode": i % 2 == 0, "qmax": 100})
+    out.extra["generated_scenarios"] = ngen
     out.note("leg S2C: %d TLC behaviours + %d trap schedules" % (len(beh), len(traps)))
     for i, (scn, script) in enumerate(beh):
         jobs.append({"scn": scn, "script": script, "seed": ctx.seed + i, "test_mode": True, "qmax": 100})
